@@ -35,7 +35,14 @@ class ASTWalker:
         if isinstance(node, Decorator):
             node = node.func
         elif isinstance(node, OverloadedFuncDef):
-            node = node.impl
+            if node.impl is not None:
+                node = node.impl
+            elif node.is_property and isinstance(node.items[0], Decorator):
+                # Properties with a setter or deleter don't have an implementation, in that case we take the getter
+                node = node.items[0].func
+            else:
+                # Overloads without an implementation
+                return
 
         if node in visited_nodes:  # pragma: no cover
             raise AssertionError("Node visited twice")
